@@ -194,11 +194,13 @@ func (w *World) rangeKeyName(fn *ssa.Function, h *ssa.BasicBlock) string {
 		}
 	}
 	if inc != nil {
+		best := token.NoPos
 		for _, b := range fn.Blocks {
 			for _, ins := range b.Instrs {
 				if d, ok := ins.(*ssa.DebugRef); ok && d.X == inc {
-					if id, ok := d.Expr.(*ast.Ident); ok {
+					if id, ok := d.Expr.(*ast.Ident); ok && (best == token.NoPos || id.Pos() < best) {
 						name = id.Name
+						best = id.Pos()
 					}
 				}
 			}
